@@ -74,7 +74,7 @@ def ref_mul(x, y, metric, select=None):
 def to_ref(mv):
     out = {}
     for bits, c in mv.data.items():
-        out[tuple(i for i in range(32) if bits >> i & 1)] = c
+        out[tuple(i for i in range(max(32, bits.bit_length())) if bits >> i & 1)] = c
     return out
 
 
@@ -210,7 +210,63 @@ def bounded(tier, seed, procs):
         if prod[0] != "val" or got != ref:
             b2.fail(Failure("multivectors", f"what=symbolic env={env}", dict(kind="ga2s", env=repr(env)), expected="reference product", actual=outcome.describe(prod)[:200],
                             functions=["MultiVector._generic_product"]))
-    return [b, b2, b_index_tuples(tier), b_same_coefficients(tier), b_scalar_operands(tier), b_default_spaces(tier), b_composite_blades(tier)]
+    return [b, b2, b_index_tuples(tier), b_same_coefficients(tier), b_scalar_operands(tier), b_default_spaces(tier), b_composite_blades(tier), b_wide(tier, seed)]
+
+
+def b_wide(tier, seed):
+    """Bitmaps wider than a machine word: the sign and bit-count kernels and sparse products in spaces of dimension 33..130."""
+    import random
+    import numpy as np
+    from pymbolic.geometric_algebra import MultiVector, Space, bit_count, canonical_reordering_sign
+    b = BoundedRun("wide-bitmaps", rule="seeded random pairs of bitmaps of width 9..130 (dense, sparse, single bits at both ends): canonical_reordering_sign(a, b) equals the parity "
+                   "of the pairs (i in a, j in b, i > j), bit_count(a) the number of set bits; in Space(n) for n in {33, 34, 40, 64, 65, 70, 130}: e_i e_j = -e_j e_i for the "
+                   "index pairs (0, n-1), (1, n-2), (n//2, n-1), e_i^2 = 1, and the product of two sparse blades equals the list-based reference", bound="4000 (thorough 20000) "
+                   "bitmap pairs; 7 wide spaces", functions=["canonical_reordering_sign", "bit_count", "MultiVector._generic_product"])
+    rnd = random.Random(seed + 5)
+    n_pairs = 20000 if tier == "thorough" else 4000
+    for k in range(n_pairs):
+        w = rnd.choice([9, 16, 31, 32, 33, 34, 40, 63, 64, 65, 100, 130])
+        mode = k % 4
+        if mode == 0:
+            a_, c_ = rnd.getrandbits(w), rnd.getrandbits(w)
+        elif mode == 1:
+            a_, c_ = (1 << (w - 1)) | rnd.getrandbits(3), 1 | (rnd.getrandbits(3) << (w - 4))
+        elif mode == 2:
+            a_ = sum(1 << rnd.randrange(w) for _ in range(3))
+            c_ = sum(1 << rnd.randrange(w) for _ in range(3))
+        else:
+            a_, c_ = 1 << rnd.randrange(w), 1 << rnd.randrange(w)
+        ia = [i for i in range(w + 8) if a_ >> i & 1]
+        ic = [i for i in range(w + 8) if c_ >> i & 1]
+        swaps = sum(1 for i in ia for j in ic if i > j)
+        r = outcome.run(lambda: (canonical_reordering_sign(a_, c_), bit_count(a_)))
+        b.case(("sign", w, a_, c_), nontrivial=w > 32, sample=dict(width=w))
+        if r != ("val", (-1 if swaps % 2 else 1, len(ia))):
+            b.fail(Failure("wide-bitmaps", f"what=reordering-sign width={w} a={a_:#x} b={c_:#x}", dict(kind="wide-sign", a=a_, b=c_), expected=repr((-1 if swaps % 2 else 1, len(ia))),
+                           actual=outcome.describe(r)[:100], functions=["canonical_reordering_sign", "bit_count"]))
+    for n in (33, 34, 40, 64, 65, 70, 130):
+        sp = Space(n)
+        g = (1,) * n
+        ev = lambda i: MultiVector({1 << i: 1}, sp)       # noqa: E731
+        for i, j in ((0, n - 1), (1, n - 2), (n // 2, n - 1), (n - 34, n - 1) if n >= 34 else (0, 1)):
+            r = outcome.run(lambda: (to_ref(ev(i) * ev(j)), to_ref(ev(j) * ev(i)), to_ref(ev(j) * ev(j))))
+            b.case(("anticommute", n, i, j), nontrivial=True, sample=dict(dim=n, i=i, j=j))
+            want = ({(i, j): 1}, {(i, j): -1}, {(): 1})
+            if r != ("val", want):
+                b.fail(Failure("wide-bitmaps", f"what=anticommutation dim={n} i={i} j={j}", dict(kind="wide-anti", dim=n, i=i, j=j), expected=repr(want), actual=outcome.describe(r)[:200],
+                               functions=["canonical_reordering_sign", "MultiVector._generic_product"]))
+        for _ in range(6):
+            xa = tuple(sorted(rnd.sample(range(n), 3)))
+            xc = tuple(sorted(rnd.sample(range(n), 3)))
+            A_ = MultiVector({sum(1 << i for i in xa): Fraction(2, 3)}, sp)
+            C_ = MultiVector({sum(1 << i for i in xc): Fraction(-5, 7)}, sp)
+            r = outcome.run(lambda: to_ref(A_ * C_))
+            want = ref_mul(to_ref(A_), to_ref(C_), g, None)
+            b.case(("sparse-product", n, xa, xc), nontrivial=True)
+            if r != ("val", want):
+                b.fail(Failure("wide-bitmaps", f"what=sparse-product dim={n} a={xa} b={xc}", dict(kind="wide-prod", dim=n, a=list(xa), b=list(xc)), expected=repr(want)[:150], actual=outcome.describe(r)[:150],
+                               functions=["MultiVector._generic_product", "canonical_reordering_sign"]))
+    return b
 
 
 def b_composite_blades(tier):
